@@ -757,18 +757,19 @@ def _check(rep, tier, tag):
             if not st.get("violation") or st["violation"][1] not in expected:
                 raise MachineryError(f"sensitivity self-test failed: variant {v} of part {p} should violate one of {expected}, TLC says {st.get('violation')} {(st.get('error') or '')[:300]}")
             rep.part(f"x05_variant_{v}", sensitivity_violation=st["violation"][1])
+        spec_bad = False
         for p in ("ray", "envtab", "cluster", "runopts"):
             st = sts[(p, "good")]
-            ftable.spec_violation(rep, st, f"x05_{p}")
+            spec_bad = ftable.spec_violation(rep, st, f"x05_{p}") or spec_bad
             rep.add_tlc(f"x05_{p}", st)
-        if rep.violations:
+        if spec_bad:
             return rep.finish()
 
         # ---- spec -> code
         c_env = replay_env(rep, vio, sts[("envtab", "good")], P)
         c_ray, nb = replay_ray(rep, vio, sts[("ray", "good")], P, rw, maxlen)
         c_cl, cl_recs = replay_cluster(rep, vio, sts[("cluster", "good")], cdrv, rng) if cdrv is not None else ({}, [])
-        c_run, run_recs = replay_run(rep, vio, sts[("runopts", "good")], rdrv, rng, None if thorough else 2500) if "run() observation" not in SKIPPED else ({}, [])
+        c_run, run_recs = replay_run(rep, vio, sts[("runopts", "good")], rdrv, rng, 10000 if thorough else 2500) if "run() observation" not in SKIPPED else ({}, [])
         rep.part("replay", behaviours=nb, env=c_env, ray=c_ray, cluster=c_cl, run=c_run)
         need = dict(env=["ucc=True:has_checkout", "ucc=True:without_checkout", "ucc=False:none", "ucc=True:none"],
                     ray=["ray_init:ok:up", "ray_init:raises:down", "ray_init:ok:down", "ray_init_cluster:ok:up", "ray_init_cluster:raises:down", "ray_shutdown:ok:down",
